@@ -443,6 +443,12 @@ func (x *Exec) havocDeclared(st *State, pre *State, callee *ssa.Function, ct *Co
 				nv := x.freshVar("recvd", SInt)
 				st.add(Ge(nv, Select(arr, ch.T)))
 				st.heap[ghRecvd] = Store(arr, ch.T, nv)
+				for h := range heapSorts {
+					if strings.HasPrefix(h, "#lrecv$") {
+						a := st.heapArr(h, heapSorts[h])
+						st.heap[h] = Store(a, ch.T, x.freshVar("lrecv", heapSorts[h].ArrElem()))
+					}
+				}
 			case "closed":
 				arr := st.heapArr(ghClosed, heapSorts[ghClosed])
 				nv := x.freshVar("closed", SBool)
@@ -480,9 +486,21 @@ func (x *Exec) checkGoPre(st *State, g *ssa.Go, callee *ssa.Function, ct *Contra
 		args = append(args, x.val(st, a))
 	}
 	env := x.callEnv(cp, cp, callee, names, tys, args)
+	if _, isB := g.Call.Value.(*ssa.Builtin); !isB && !g.Call.IsInvoke() {
+		fv := x.val(st, g.Call.Value)
+		if fv.Fn == nil && fv.T != nil && st.clos != nil {
+			if cv, ok := st.clos[fv.T.Key()]; ok {
+				fv = cv
+			}
+		}
+		if fv.Fn == callee {
+			x.bindFreeVars(cp, env, callee, fv.Binds, env.binds)
+		}
+	}
 	for i, rq := range ct.Requires {
 		t := env.eval(rq.Expr)
 		if env.err != nil {
+			x.specError(rq.Expr, env.err)
 			env.err = nil
 			continue
 		}
@@ -775,6 +793,12 @@ func (x *Exec) checkFrame(st *State, r *ssa.Return) {
 		lk := k
 		if strings.HasPrefix(k, ghLast) {
 			lk = ghSent
+		}
+		if strings.HasPrefix(k, "#lrecv$") {
+			lk = ghRecvd
+			if allowedWild[ghRecvd] {
+				continue
+			}
 		}
 		for _, b := range allowedLoc[lk] {
 			conds = append(conds, Neq(sk, b))
